@@ -138,6 +138,8 @@ StepOK(r) ==
            [] ev.a = "CrashRestart"  -> (r.res = "ok" /\ "pre" \in DOMAIN r) => RestartOK(r)     \* a kill in the middle of a schedule; the schedule goes on
            [] ev.a \in {"Sleep", "EndSettle", "SettleExhausted"} -> UNCHANGED vars
            [] ev.a = "ConvReset"     -> ConvReset(ev.convs[1])
+           [] ev.a = "ConvRemove"    -> IF r.res = "ok" THEN ConvRemove(ev.convs[1]) ELSE UNCHANGED vars
+           [] ev.a = "ConvAdd"       -> IF r.res = "ok" THEN ConvAdd(ev.convs[1]) ELSE UNCHANGED vars
            [] ev.a = "ViewConvert"   -> ViewConvert(ev.v, ev.k, ev.convs[1])
            [] OTHER                  -> TRUE            \* events the model does not constrain (yet)
 
